@@ -403,7 +403,7 @@ impl BitMask {
                 if msb - lsb == 63 {
                     i64::MAX
                 } else {
-                    (1 << (msb - lsb + 1)) - 1
+                    ((1_u64 << (msb - lsb + 1)) - 1) as i64
                 }
             }
         }
@@ -417,7 +417,7 @@ impl BitMask {
         if msb - lsb == 63 {
             -1
         } else {
-            ((1 << (msb - lsb + 1)) - 1) << lsb
+            (((1_u64 << (msb - lsb + 1)) - 1) << lsb) as i64
         }
     }
 }
